@@ -13,7 +13,10 @@ RULE = ("fresh TrafficLightCycle per case; expected state = explicit list of col
         "(t - offset) mod total")
 ASSUMPTIONS = ["durations are positive ints, offset >= 0 (the statement's domain)",
                "a fresh cycle object per case; in a third of the generated cases the cycle gets its offset through the "
-               "public setter after one query (longer mutation histories are C11's business)"]
+               "public setter after one query, in another third the object has been used with other elements / "
+               "another cycle before (longer mutation histories are C11's business)",
+               "the 'active' flags of light and cycle do not enter the state (the statement defines the state by the "
+               "cycle alone; the unchanged library agrees)"]
 
 COLOURS = [c.name for c in TrafficLightState]
 
@@ -29,27 +32,63 @@ def check(recipe, ctx):
     durations, colours, offset, ts = recipe["durations"], recipe["colours"], recipe["offset"], recipe["ts"]
     total = sum(durations)
     bounds = set(itertools.accumulate(durations))
+    hist = recipe.get("history")
     for mode in ("cycle", "light"):
         elements = [TrafficLightCycleElement(TrafficLightState[c], d) for c, d in zip(colours, durations)]
-        if recipe.get("initial_offset") is not None:
+        light = None
+        if hist is not None:
+            # the object under test has been used before with another cycle definition and reaches the recipe's
+            # definition through a public setter: the offset setter, the cycle_elements setter (same phases in another
+            # order, possibly one of them repeated) or, for a light, the assignment of a new cycle
+            order = sorted(range(len(elements)), key=lambda i: (hist["order"][i % len(hist["order"])], i))
+            first = [TrafficLightCycleElement(elements[i].state, elements[i].duration) for i in order]
+            if hist["repeat"]:
+                first.append(TrafficLightCycleElement(first[0].state, first[0].duration))
+            cycle = TrafficLightCycle(first, time_offset=hist["offset"] if hist["kind"] == "offset" else offset,
+                                      active=recipe.get("cycle_active", True))
+            if hist["kind"] == "offset":
+                cycle.cycle_elements = elements
+            obj = cycle
+            if mode == "light":
+                light = obj = TrafficLight(7, np.array([1.0, 2.0]), cycle, active=recipe.get("active", True))
+            for t in ts[:2]:
+                obj.get_state_at_time_step(t)
+            if hist["kind"] == "offset":
+                cycle.time_offset = offset
+            elif hist["kind"] == "elements" or light is None:
+                cycle.cycle_elements = elements
+            else:
+                light.traffic_light_cycle = TrafficLightCycle(elements, time_offset=offset,
+                                                              active=recipe.get("cycle_active", True))
+        elif recipe.get("initial_offset") is not None:
             # the cycle reaches its offset through the public setter after it has been queried once
             cycle = TrafficLightCycle(elements, time_offset=recipe["initial_offset"])
             cycle.get_state_at_time_step(ts[0])
             cycle.time_offset = offset
+            obj = cycle
         else:
-            cycle = TrafficLightCycle(elements, time_offset=offset)
-        obj = cycle
-        if mode == "light":
-            obj = TrafficLight(7, np.array([1.0, 2.0]), cycle)
+            obj = cycle = TrafficLightCycle(elements, time_offset=offset, active=recipe.get("cycle_active", True))
+        if mode == "light" and light is None:
+            obj = TrafficLight(7, np.array([1.0, 2.0]), cycle, active=recipe.get("active", True))
+            if recipe.get("active_via_setter"):
+                obj.get_state_at_time_step(ts[0])
+                obj.active = not recipe.get("active", True)
+                obj.get_state_at_time_step(ts[0])
+                obj.active = recipe.get("active", True)
         for t in ts:
             got = obj.get_state_at_time_step(t)
             exp = reference(durations, colours, offset, t)
             if not isinstance(got, TrafficLightState) or got.name != exp:
-                raise Violation("state-%s" % mode, "durations=%s colours=%s offset=%s t=%s: got %s expected %s" % (
-                    durations, colours, offset, t, got, exp))
+                raise Violation("state-%s" % mode, "durations=%s colours=%s offset=%s t=%s: got %s expected %s "
+                                "(history %r, active %r)" % (durations, colours, offset, t, got, exp, hist,
+                                                              recipe.get("active", True)))
             got2 = obj.get_state_at_time_step(t + total)
             if got2 != got:
                 raise Violation("periodicity-%s" % mode, "t=%s total=%s: %s vs %s" % (t, total, got, got2))
+    if hist is not None:
+        ctx.label("history-" + hist["kind"])
+    if not recipe.get("active", True):
+        ctx.label("light-inactive")
     for t in ts:
         rel = (t - offset) % total
         if t - offset < 0:
@@ -83,6 +122,12 @@ def strategy(tier):
         "ts": st.lists(st.one_of(st.integers(-100, 400), st.integers(-5, 60), st.integers(1000, 100000)),
                        min_size=1, max_size=8),
         "initial_offset": st.one_of(st.none(), st.none(), st.integers(0, 50)),
+        "history": st.one_of(st.none(), st.none(), st.fixed_dictionaries({
+            "kind": st.sampled_from(["offset", "elements", "new-cycle"]), "offset": st.integers(0, 50),
+            "order": st.lists(st.integers(0, 9), min_size=6, max_size=6), "repeat": st.booleans()})),
+        # the 'active' flags describe whether the light is switched on, not which phase its cycle is in
+        "active": st.sampled_from([True, True, False]), "cycle_active": st.sampled_from([True, True, False]),
+        "active_via_setter": st.booleans(),
     }))
 
 
